@@ -273,7 +273,21 @@ impl<'a> Gen<'a> {
             inner.vars.push(Var { name: dn, ty: Ty::Int, mutable: true });
             self.tag("internal-define");
         }
-        body.extend(self.body(ret, &inner, depth.saturating_sub(1)));
+        // an internal procedure whose formal has the name of an integer variable visible here: the
+        // formal is bound inside that procedure only, the rest of the body keeps seeing the outer variable
+        let ints: Vec<String> = inner.vars.iter().filter(|v| v.ty == Ty::Int).map(|v| v.name.clone()).collect();
+        if !ints.is_empty() && self.rng.chance(1, 5) {
+            let shadow = self.rng.pick(&ints).clone();
+            let hn = self.fresh("ip");
+            body.push(list(vec![sym("define"), list(vec![sym(&hn), sym(&shadow)]), call("+", vec![sym(&shadow), int(1)])]));
+            self.tag("internal-procedure-whose-formal-shadows");
+            // make sure the outer variable is read after the definition
+            let rest = self.body(ret, &inner, depth.saturating_sub(1));
+            body.push(call(&hn, vec![sym(&shadow)]));
+            body.extend(rest);
+        } else {
+            body.extend(self.body(ret, &inner, depth.saturating_sub(1)));
+        }
         self.lambda_depth -= 1;
         let mut v = vec![sym("lambda"), formals];
         v.extend(body);
